@@ -438,6 +438,38 @@ class Evaluator:
         raise AnalysisError(f"numpy.{short} is not modelled by the kernel interpreter")
 
 
+def inline_private_helpers(p: Program, t: Term, depth: int = 2) -> Term:
+    """Calls of private module-level helpers of the package (`_degrees(x)`) replaced by what the helper returns (all its return values joined), so that
+    what it does - or does not do - to the operand is seen by the rules that read a kernel."""
+    import ast
+
+    from .npcanon import desugar
+    from .sym import phi
+
+    def helpers(u: Term, depth: int) -> Term:
+        if not isinstance(u, tuple):
+            return u
+        if u and u[0] == "call" and isinstance(u[1], tuple) and u[1][0] == "global" and isinstance(u[1][1], str) and u[1][1].startswith("fuzzylite.") and depth > 0:
+            name = u[1][1].split(".")[-1]
+            hf = p.functions.get(name)
+            if hf is not None and hf.cls is None and name.startswith("_") and hf.module.name == ".".join(u[1][1].split(".")[:-1]) and len(hf.params) == len(u[2]) and not u[3]:
+                hr = Resolver(p, hf)
+                hrets = [n for n in hr.cfg.stmt_nodes() if isinstance(n.ast, ast.Return) and n.ast.value is not None]
+                if hrets:
+                    body = desugar(phi([hr.term(n.ast.value, n) for n in hrets]))
+                    bound = {("param", q.name): helpers(a, depth) for q, a in zip(hf.params, u[2])}
+
+                    def subst(v: Term) -> Term:
+                        if isinstance(v, tuple) and v and isinstance(v[0], str):
+                            return bound[v] if v in bound else tuple(subst(x) for x in v)
+                        return tuple(subst(x) for x in v) if isinstance(v, tuple) else v
+
+                    return helpers(subst(body), depth - 1)
+        return tuple(helpers(x, depth) for x in u)
+
+    return helpers(t, depth)
+
+
 def return_term(p: Program, cls: ClassInfo, meth: str) -> Term:
     """Resolved term of the (single) value returned by cls.meth."""
     import ast
@@ -472,6 +504,8 @@ def return_term(p: Program, cls: ClassInfo, meth: str) -> Term:
         return tuple(accessors(x, depth) for x in u)
 
     t = accessors(t)
+
+    t = inline_private_helpers(p, t)
     cache[key] = t
     return t
 
